@@ -272,12 +272,16 @@ pub async fn scenario() {
 					}
 					Cycle::HandlerCancelled(k) => {
 						let _g = handler_lock.lock().await;
-						let fut = client.subscribe_to_method::<Value>("mn");
-						tokio::pin!(fut);
-						tokio::select! {
-							biased;
-							r = &mut fut => { drop(r); }
-							_ = rt::yield_n(k) => { rt::probe("handler_cancelled"); }
+						{
+							// (the abandoned future is dropped at once, at the end of this block - a future that is kept around
+							// unpolled would hold the reply channel open and look like a caller who is still waiting)
+							let fut = client.subscribe_to_method::<Value>("mn");
+							tokio::pin!(fut);
+							tokio::select! {
+								biased;
+								r = &mut fut => { drop(r); }
+								_ = rt::yield_n(k) => { rt::probe("handler_cancelled"); }
+							}
 						}
 						tokio::time::sleep(Duration::from_millis(50)).await;
 					}
@@ -384,7 +388,13 @@ pub async fn scenario() {
 			}
 			wire.push_text(sub_notif("n", &sid, &json!(7)));
 		}
-		wire.push_text(method_notif("mn", Some(&json!(7))));
+		// (with a request queue that cannot be full, nothing the application drops goes unnoticed: no reminder for the
+		// handler method either)
+		if max_conc != 256 {
+			wire.push_text(method_notif("mn", Some(&json!(7))));
+		} else {
+			rt::probe("no_reminder_for_the_handler_method");
+		}
 		rt::quiesce().await;
 	}
 	let connected = client.is_connected();
